@@ -34,6 +34,34 @@ claimed = {
  "C06": dict(
    text="Bounded symbolic model checking of the real DateRange.Compare (SSA interpreted, four symbolic dates): for every feasible path the solver proves that the returned relation is the documented one for the day intervals the code itself derives, never Invalid, that swapping operands gives the converse and that exactly one simplified verdict holds. All days of years 1..9999 and all 81 granularity combinations are covered by symbolic variables, not samples.",
    ref="DESIGN.md §3 C06", note="Agreement of Date.Time() with the calendar is C05's obligation. " + NOTE_COMMON),
+
+ "C12": dict(
+   text="Bounded symbolic model checking of the similarity functions on the real SSA: JaroWinkler over every pair of byte strings of lengths 0..5 (thorough 0..7) with all 256 byte values symbolic, StringSimilarity on printable ASCII strings of lengths 0..3, DateRange.Similarity and its monotonicity on symbolic year-granularity dates (years 1..9999), the weighted surrounding similarity with symbolic component scores and weights, and IndividualNode / IndividualNodes.Similarity on individuals with symbolic names and birth years. Range [0,1], symmetry, identity, neutrality of missing data and monotonicity in distance are assertions over all values.",
+   ref="DESIGN.md §3 C12", note="float64 is abstracted soundly (reals + uninterpreted monotone rounding, relative error 2^-53 + absolute 2^-1073), so exact last-ulp claims are not made; date similarity on month/day granularity and with a symbolic maxYears is outside the bounds (solver unknown). " + NOTE_COMMON),
+ "C13": dict(
+   text="Bounded symbolic model checking of every history of 2 (thorough 3) mutating operations (AddNode, DeleteNode, SetNodes, AddIndividual, AddFamily, SetHusband/SetWife, AddChild, ... chosen symbolically with symbolic targets) on a family document: after each history every derived view (Individuals, Families, NodeByPointer, per-individual Families/Spouses/Parents, family Husband/Wife/Children, warnings) of the live document equals the same view of a fresh decode of its serialisation.",
+   ref="DESIGN.md §3 C13", note=NOTE_COMMON),
+ "C14": dict(
+   text="Bounded symbolic model checking of robustness against hostile references: a template family file in which one reference at a time (HUSB/WIFE/CHIL/FAMS/FAMC/pointer definitions) is dangling, of the wrong kind, self-referential, empty or duplicated (the corrupted line is chosen symbolically), pushed through the relation accessors, warnings, Compare / similarity and the whole html Publish pipeline; every Go run-time check is an implicit obligation and any panic is a counterexample.",
+   ref="DESIGN.md §3 C14", note="Process-level behaviour of the CLI is outside this technique. " + NOTE_COMMON),
+ "C15": dict(
+   text="Bounded symbolic model checking of query totality: every query of 0..3 printable ASCII bytes (all bytes symbolic) through tokenizer and parser; source | stage (| stage) pipelines over 9 sources x 42 stage templates (accessors, unknown accessors, all functions with right and wrong argument counts, objects, variables, operators, numeric arguments as symbolic digits) on 4 document sets, each result handed to all five formatters; 19 hand-picked hostile programs (self-referential variables, nil pipelines). A panic, a call depth beyond the engine budget (stack overflow) or a mutated document is a counterexample.",
+   ref="DESIGN.md §3 C15", note="'gedcom query' as a process, random long queries and documents beyond the 4 sets are outside this technique. " + NOTE_COMMON),
+ "C16": dict(
+   text="Bounded symbolic model checking of query semantics: the six comparison operators of the real BinaryExpr on operands of 0..2 (thorough 0..3) symbolic bytes against a reference order written from the statement (numbers as exact rationals, otherwise trimmed lower-cased text), with '!=' = not '=', trichotomy and <=/>= composition as laws, also through tokenizer+parser on 28 special spellings; 22 queries (accessor chains, First/Last with a symbolic count 0..9, Length, Only with a symbolic literal, Combine, NodesWithTagPath, objects, variables) on family documents of 0..4 people with symbolic name bytes, compared as JSON with the value computed through the Go API; variable inlining, repeatability under 4 map iteration orders, Combine doubling and Only partition identities.",
+   ref="DESIGN.md §3 C16", note="Exponent / hex / inf / nan operand spellings are covered by the concrete pairs only; accessors returning floats of symbolic dates are outside the bounds. " + NOTE_COMMON),
+ "C17": dict(
+   text="Bounded symbolic model checking of living-person privacy in the real html Publish pipeline (in-memory FileWriter): a family document in which one person (chosen symbolically) is living, with symbolic name / place / pointer bytes as secrets; with LivingVisibilityHide the solver proves that no byte of any written page depends on the secret values (output invariance: the emitted site is identical on every path of a case) and that no file or link for the living person exists; with Show / Placeholder the documented behaviour holds.",
+   ref="DESIGN.md §3 C17", note=NOTE_COMMON),
+ "C18": dict(
+   text="Bounded symbolic model checking of HTML escaping: one tainted field at a time (individual name, place, source title, note, family event, diff page values) holds symbolic bytes including < > \" & and is pushed through the real Publish and diff-page writers; the solver proves that in every written page the tainted bytes occur only escaped in text and attribute contexts.",
+   ref="DESIGN.md §3 C18", note="JavaScript/URL contexts and two tainted values at once are outside the bounds. " + NOTE_COMMON),
+ "C19": dict(
+   text="Bounded symbolic model checking of the publish pipeline's file set: documents whose names / surnames / places hold symbolic bytes (collisions, case differences, symbols, empty names) published through the real writer pool under a deterministic scheduler, 4 map iteration orders and injected writer faults: unique file names, every link target written, reserved names never taken by data, identical output for every schedule/map order, and an error (never a partial silent success) when the writer fails.",
+   ref="DESIGN.md §3 C19", note="OS-level file system behaviour and true parallel data races (race detector) are outside this technique; the scheduler explores deterministic interleavings only. " + NOTE_COMMON),
+ "C20": dict(
+   text="Bounded symbolic model checking of Document.Warnings on the real SSA: families and individuals whose exact dates have a symbolic day (1..28), month and year by choice: child-born-before-parent iff the child's birthday is earlier, once per parent and naming the right people, under 3 record orders and either parent; siblings-too-close iff 2 days..9 months apart once per pair; married too young / too old; individual too old; wrong event order; one unparsable-date warning per bad date; multiple sexes; inverted spouses for all 16 sex combinations. Before/after = calendar order is proved in the same check (VerifC05_Order) and used as a lemma.",
+   ref="DESIGN.md §3 C20", note="Years are choices (a symbolic year makes every age computation a multi-second query); dates within a few days of a threshold are excluded (float age arithmetic is modelled with sound rounding slack). " + NOTE_COMMON),
 }
 NA = {}
 checks = []
